@@ -26,7 +26,7 @@ class Pair(FactAnalysis):
 
     def model_call(self, call, st, meth):
         f = call.func
-        return isinstance(f, ast.Attribute) and f.attr == meth and self.place(f.value, st) == 'self.model' \
+        return isinstance(f, ast.Attribute) and f.attr == meth and self.place(f.value, st) in ('self.model', 'model') \
             and len(call.args) >= 1
 
     def equal_places(self, st, p):
@@ -40,11 +40,20 @@ class Pair(FactAnalysis):
                     changed = True
         return out
 
+    MUTATORS = ('combine', 'update', 'pop', 'clear', 'setdefault', 'popitem', '__setitem__', '__delitem__')
+
     def visit_expr(self, st, e, stmt):
         for c in calls_in(e):
-            if is_setup_call(c, self.setup):
+            if self.setup is not None and is_setup_call(c, self.setup):
                 self.kill(st, 'self.model')
                 st.facts |= {('CLEAN', POT), ('CLEAN', MARG)}
+            f = c.func
+            if isinstance(f, ast.Attribute) and f.attr in self.MUTATORS:
+                # in-place change of a parameter vector: whatever was computed from it is stale
+                p = self.place(f.value, st)
+                if p is not None:
+                    for q in self.equal_places(st, p):
+                        st.facts = {x for x in st.facts if not (x[0] in ('SYNC', 'MLE', 'EQ') and self.mentions(x, q))}
 
     def gen(self, st, places, value, stmt):
         new = set()
@@ -53,6 +62,10 @@ class Pair(FactAnalysis):
         if vp is not None:
             new.add(('EQ', tp, vp))
         if isinstance(value, ast.Call):
+            if isinstance(value.func, ast.Name) and value.func.id == 'GraphicalModel':
+                # a freshly constructed model has neither attribute yet
+                new.add(('CLEAN', tp + '.marginals'))
+                new.add(('CLEAN', tp + '.potentials'))
             if self.model_call(value, st, 'belief_propagation') and not value.keywords:
                 xp = self.place(value.args[0], st)
                 if xp is not None:
@@ -111,6 +124,20 @@ def run(ctx):
             ctx.ob('pair-at-exit', fi, node, ok, why,
                    construct=header(stmt) if stmt is not None else 'fall-through exit of ' + fi.name)
     ctx.floor('solver exits checked', n_exits, 4)
+    # ---- setup itself: it may leave marginals unset, or in sync - never stale -------------------------
+    ctx.analysed(setup)
+    an = Pair(setup, None, ctx)
+    n = 0
+    for stmt, st in an.exits(setup.body, St()):
+        n += 1
+        untouched = ('CLEAN', MARG) in st.facts
+        ok = untouched or ('SYNC', POT, MARG) in st.facts or ('MLE', POT, MARG) in st.facts
+        ctx.ob('pair-at-exit', setup, stmt if stmt is not None else setup.node, ok,
+               'setup hands the solvers a model whose marginals are %s' % ('not set (queries fall back to the parameters)' if untouched else
+                                                                            ('in sync with its parameters' if ok else
+                                                                             'stored but not those of its final parameters (stale cache for an early-exiting solver)')),
+               construct=header(stmt) if stmt is not None else 'fall-through exit of ' + setup.name)
+    ctx.floor('setup exits checked', n, 1)
     check_mle(ctx)
 
 
